@@ -316,7 +316,7 @@ void rc_check(const rc_rel_t *rin, const double complex *min,
 	double cond_max, rc_result_t *res)
 {
     int n = rin->n;
-    double complex D[RC_MAXN * RC_MAXN], I[RC_MAXN * RC_MAXN];
+    double complex Dm[RC_MAXN * RC_MAXN], Im[RC_MAXN * RC_MAXN];
     double worst = 0.0;
 
     res->decided = false;
@@ -340,13 +340,13 @@ void rc_check(const rc_rel_t *rin, const double complex *min,
 	    return;
 	rc_tuples(rout, &st, d, i2);
 	for (int k = 0; k < n; ++k) {
-	    D[k * n + j] = d[k];
-	    I[k * n + j] = i2[k];
+	    Dm[k * n + j] = d[k];
+	    Im[k * n + j] = i2[k];
 	}
     }
-    if (!all_finite(n * n, D) || !all_finite(n * n, I))
+    if (!all_finite(n * n, Dm) || !all_finite(n * n, Im))
 	return;
-    res->cond = cond_equilibrated(n, I, NULL);
+    res->cond = cond_equilibrated(n, Im, NULL);
     if (!(res->cond <= cond_max))
 	return;
     res->decided = true;
@@ -357,16 +357,16 @@ void rc_check(const rc_rel_t *rin, const double complex *min,
     for (int j = 0; j < n; ++j) {
 	for (int k = 0; k < n; ++k) {
 	    double complex acc = 0.0;
-	    double den = cabs(D[k * n + j]);
+	    double den = cabs(Dm[k * n + j]);
 	    double r;
 
 	    for (int m = 0; m < n; ++m) {
-		acc += mout[k * n + m] * I[m * n + j];
-		den += cabs(mout[k * n + m]) * cabs(I[m * n + j]);
+		acc += mout[k * n + m] * Im[m * n + j];
+		den += cabs(mout[k * n + m]) * cabs(Im[m * n + j]);
 	    }
 	    if (den < 1e-290)
 		continue;
-	    r = cabs(D[k * n + j] - acc) / den;
+	    r = cabs(Dm[k * n + j] - acc) / den;
 	    if (r > worst)
 		worst = r;
 	}
@@ -379,7 +379,7 @@ double rc_reference(const rc_rel_t *rin, const double complex *min,
 	const double complex *z0, const double complex *drive)
 {
     int n = rin->n;
-    double complex D[RC_MAXN * RC_MAXN], I[RC_MAXN * RC_MAXN],
+    double complex Dm[RC_MAXN * RC_MAXN], Im[RC_MAXN * RC_MAXN],
 		   Iinv[RC_MAXN * RC_MAXN];
     double cond;
 
@@ -393,13 +393,13 @@ double rc_reference(const rc_rel_t *rin, const double complex *min,
 	    return HUGE_VAL;
 	rc_tuples(rout, &st, d, i2);
 	for (int k = 0; k < n; ++k) {
-	    D[k * n + j] = d[k];
-	    I[k * n + j] = i2[k];
+	    Dm[k * n + j] = d[k];
+	    Im[k * n + j] = i2[k];
 	}
     }
-    if (!all_finite(n * n, D) || !all_finite(n * n, I))
+    if (!all_finite(n * n, Dm) || !all_finite(n * n, Im))
 	return HUGE_VAL;
-    cond = cond_equilibrated(n, I, Iinv);
+    cond = cond_equilibrated(n, Im, Iinv);
     if (cond == HUGE_VAL)
 	return HUGE_VAL;
     for (int k = 0; k < n; ++k) {
@@ -407,7 +407,7 @@ double rc_reference(const rc_rel_t *rin, const double complex *min,
 	    double complex acc = 0.0;
 
 	    for (int j = 0; j < n; ++j)
-		acc += D[k * n + j] * Iinv[j * n + m];
+		acc += Dm[k * n + j] * Iinv[j * n + m];
 	    mout[k * n + m] = acc;
 	}
     }
